@@ -296,7 +296,22 @@ def via_engine(updater, path, n_sib, v, updates, unit_decl, mode):
     var = path[-1]
     sibs = {f'sib{i}': {'_default': 40 + i, '_emit': True}
             for i in range(n_sib)}
-    if mode == 'ports':
+    if mode == 'leafport':
+        # one process per update whose PORT IS THE VARIABLE (wired with
+        # the variable's full path; the update is the bare value)
+        for i, g in enumerate(given):
+            pid = f'p{i}'
+            processes[pid] = {
+                'cls': 'P', 'pid': pid, 'log_states': False,
+                'schema': {'port': dict(leaf)},
+                'update': {'port': {'$lit': g}}}
+            topology[pid] = {'port': tuple(path)}
+        if sibs:
+            processes['sibdecl'] = {
+                'cls': 'P', 'pid': 'sibdecl', 'log_states': False,
+                'schema': {'port': dict(sibs)}, 'update': {}}
+            topology['sibdecl'] = {'port': store_path}
+    elif mode == 'ports':
         # one process, one port per update, all wired to the same store
         schema = {f'port{i}': dict({var: dict(leaf)}, **sibs)
                   for i in range(len(given))}
@@ -456,6 +471,10 @@ def jobs(ctx):
                                             'nonnegative_accumulate',
                                             'vmc_user'):
                             modes.append('mixed')
+                        if route == 'engine' and updater not in (
+                                'merge', 'dict_value', 'override') and \
+                                not isinstance(vmk(), dict):
+                            modes.append('leafport')
                         for mode in modes:
                             if mode == 'ports' and isinstance(vmk(), dict):
                                 # a dict-valued leaf update returned
@@ -526,3 +545,7 @@ def replay(case):
             check_case(j, acc)
             break
     return [v for exs in acc.viol_examples.values() for v in exs]
+
+
+RULE += (
+    ' Engine route also through LEAF ports (the port is the variable, the update is the bare value - falsy values included).')
